@@ -1,6 +1,6 @@
 """Minecraft auto-detecting query (Java, Bedrock, legacy 1.6, 1.4, beta 1.8; one new socket per variant)."""
 
-FAMILY = dict(
+FAMILY = dict(send_units=9, 
     name="mcauto", nargs=4, gen="mcauto", retries=3, port=0, decode_property="C03", entry="mcauto",
     describe=("all 32 subsets of variants a server speaks; variants not spoken refuse the connection or stay silent for 0-2 "
               "reads; the OPENED tag (transports of the sockets opened, in order) is compared with the implementation's trace"),
